@@ -18,9 +18,16 @@ def gen_op(text, step, scoped_ok):
         if R.random() < 0.3: nm += '.' + R.choice(['x', 'license', 'k']) + ('.deep' if R.random() < 0.3 else '')
         if R.random() < 0.6: return ('set', '@' * d + nm, R.choice(['51', '{ k = 1; }', '"t"'])), 'scoped'
         return ('rm', '@' * d + nm), 'scoped'
-    kind = R.choice(['existing', 'existing', 'fresh', 'fresh_nested', 'deep', 'missing'])
+    kind = R.choice(['existing', 'existing', 'fresh', 'fresh_nested', 'deep', 'missing', 'collide'])
     if not paths: kind = 'fresh'
-    if kind == 'existing': p = R.choice(paths)
+    if kind == 'collide':            # a missing key that equals the leaf name of an attrpath binding one level down (`a.q` next to `a.p.q = 1`)
+        cands = [q for q in paths if len(q) >= 2 and q[:-2] + (q[-1],) not in paths]
+        deep = [q for q in cands if len(q) >= 3]
+        if deep and R.random() < 0.8: cands = deep          # below the top level the edit reaches AttributeSet.__delitem__ / __setitem__ itself
+        if cands: q = R.choice(cands); p = q[:-2] + (q[-1],)
+        else: kind = 'missing'
+    if kind == 'collide': pass
+    elif kind == 'existing': p = R.choice(paths)
     elif kind == 'fresh': p = (R.choice(paths)[:-1] if paths and R.random() < 0.5 else ()) + ('fresh%d' % step,)
     elif kind == 'fresh_nested': p = ('n%d' % step, R.choice(['x', 'y']))
     elif kind == 'deep': p = R.choice(paths) + ('deep%d' % step,)
@@ -45,7 +52,7 @@ def parse_path(ps):
 # =================================================================================== C08
 def run_C08():
     for it in range(N):
-        text, meta = gen_doc(R, scoped=R.random() < 0.5)
+        text, meta = gen_doc(R, scoped=R.random() < 0.5, attrpath_nested=R.random() < 0.5)
         ops = []
         src = parse(text); cur = text; trace = []
         for step in range(R.randint(2, 6)):
